@@ -157,6 +157,19 @@ func init() {
 			i.w.guards = append(i.w.guards, g)
 			return nil
 		},
+		"vReadOnly": func(i *interpreter, fr *frame, fn *ssa.Function, a []value) value {
+			g := guardRec{name: a[1].(string), ro: true}
+			switch o := a[0].(iface).v.(type) {
+			case *value:
+				g.cell = o
+			case *omap:
+				g.obj = o
+			default:
+				unsupported("vReadOnly: cannot watch a %T", o)
+			}
+			i.w.guards = append(i.w.guards, g)
+			return nil
+		},
 		"vHeld": func(i *interpreter, fr *frame, fn *ssa.Function, a []value) value {
 			mu, _ := a[0].(iface).v.(*value)
 			return i.w.held[mu]
